@@ -19,9 +19,9 @@ func init() {
 				"C01.see (ancestry comparisons on per-creator indexes are non-strict >=; the coordinate merge keeps the larger index), " +
 				"C01.fame (fame is set only for an undecided witness, in a normal (non-coin) round, by a supermajority; COIN_ROUND_FREQ/ROOT_DEPTH are compile-time constants; Famous / decided have a single writer; a decided round stays decided), " +
 				"C01.rr (round-received needs all witnesses of the round decided, every famous witness seeing the event, at least a supermajority of them; first such round only; search starts at round(x)+1), " +
-				"C01.order (the consensus sort reads only Lamport timestamp and signature; Frame.Events is stored sorted), C01.inorder (rounds processed ascending, shared with C02.order). " +
+				"C01.order (the consensus sort reads only Lamport timestamp and signature; Frame.Events is stored sorted), C01.inorder (rounds processed ascending, shared with C02.order), C01.roundonce (a decided round is turned into a block once, also across error exits: a node that delivers a round twice disagrees with its peers at every later index; shared with C02.once). " +
 				"NOT covered: correctness of the voting scheme itself, the coin, that `break VOTE_LOOP` is order-independent, LRU eviction of RoundInfo objects."},
-		Rules: []ruleFunc{c01thr, c01pair, c01see, c01fame, c01rr, c01order, func(p *Prog, r *Report) { c02orderAs(p, r, "C01.inorder") }},
+		Rules: []ruleFunc{c01thr, c01pair, c01see, c01fame, c01rr, c01order, func(p *Prog, r *Report) { c02orderAs(p, r, "C01.inorder") }, func(p *Prog, r *Report) { onceRule(p, r, "C01.roundonce") }},
 	})
 	register(&propDef{
 		ID: "C04", NeedCG: true,
